@@ -136,7 +136,10 @@ def cli_case(case):
         files["untouched.py"] = b"x = 1\r\ny = 2"
         files["data.txt"] = b"\xff\xfe binary"
         if case["manifest"]:
-            files[case["manifest"]] = rng.choice(e2e.MANIFESTS[case["manifest"]]).encode()
+            mtxt = rng.choice(e2e.MANIFESTS[case["manifest"]]).encode()
+            if case.get("manifest_bom"):
+                mtxt = b"\xef\xbb\xbf" + mtxt
+            files[case.get("manifest_dir", "") + case["manifest"]] = mtxt
         proj = root / "p"
         e2e.write_project(proj, files)
         before = e2e.read_tree(proj)
@@ -179,7 +182,7 @@ def cli_case(case):
 
 def search(ctx):
     rng = ctx.rng
-    layouts = ["plain", "plain", "no-final-newline", "trailing-blank", "nonascii-comment", "crlf", "formfeed", "bom", "cr-only-in-string"]
+    layouts = ["plain", "plain", "no-final-newline", "trailing-blank", "nonascii-comment", "crlf", "formfeed", "bom", "cr-only-in-string", "latin1-cookie"]
     cases = []
     for lay in layouts:
         for _ in range(ctx.pick(2, 12)):
@@ -188,6 +191,8 @@ def search(ctx):
     # dependency adders x manifest kinds
     for m in ["requirements.txt", "pyproject.toml", "setup.py", "setup.cfg"]:
         cases.append({"layout": "plain", "n": 2, "codemods": ["pixee:python/use-defusedxml"], "manifest": m, "seed": rng.randint(0, 10**9)})
+        cases.append({"layout": "plain", "n": 2, "codemods": ["pixee:python/use-defusedxml"], "manifest": m, "manifest_dir": "backend/", "seed": rng.randint(0, 10**9)})
+    cases.append({"layout": "plain", "n": 2, "codemods": ["pixee:python/use-defusedxml"], "manifest": "requirements.txt", "manifest_bom": True, "seed": rng.randint(0, 10**9)})
     results = impl.pool_map(cli_case, cases)
     lean_reqs, lean_meta = [], []
     for c, r in zip(cases, results):
